@@ -200,35 +200,48 @@ package schema
 //@     invariant len(edges) <= rk3
 //@     exit ensures [at-most-one-edge-per-sequence-flow] len(edges) <= len(flowEdges)
 
-// Row assignment within one level: the nodes processed so far hold rows that are all marked occupied, are
-// non-negative, and differ for nodes with different ids — the collision-avoidance of the layout.  (That the sorted
-// level list is a permutation of the level's nodes, and that ids are unique, is what turns this into "no two nodes of
-// a level share a row"; see the not-decided items of C19.)
+// Row assignment: rows handed out within one level never collide.  The statement is about node ids (the keys of the
+// row map), so it needs neither positions nor uniqueness of ids: a level's pass writes rows of ids of that level only
+// (the level's list holds only nodes of the level — filter loop — and sorting permutes it: hard-wired model of
+// sort.Slice), every row handed out in the pass is marked occupied, and a new row is chosen outside the occupied set.
+// (That every node of a level is in its level's list, i.e. that every node gets a row, is not decided: see C19.)
+//@ spec func nodesKept(nodes []*processNodeLayout) bool =
+//@   forall a int :: off(nodes) <= a && a < off(nodes) + len(nodes) ==> at(nodes, a) != nil && at(nodes, a) == old(at(nodes, a))
+//@ spec func levelsKept(levels map[string]int) bool = forall k string :: levels[k] == old(levels[k])
+//@ spec func rowsApart(levels map[string]int, rows map[string]int) bool =
+//@   forall k1 string, k2 string :: k1 != k2 && has(rows, k1) && has(rows, k2) && levels[k1] == levels[k2] ==> rows[k1] != rows[k2]
 //@ func computeFlowNodeRows
 //@   prop C19
 //@   requires forall a int :: off(nodes) <= a && a < off(nodes) + len(nodes) ==> at(nodes, a) != nil
+//@   ensures [rows-handed-out-within-a-level-never-collide] forall k1 string, k2 string :: k1 != k2 && has(result, k1) && has(result, k2) &&
+//@             levels[k1] == levels[k2] ==> result[k1] != result[k2]
 //@   loop 1 range edges
-//@     invariant rows != nil && incoming != nil
+//@     invariant rows != nil && incoming != nil && nodesKept(nodes) && levelsKept(levels)
+//@     invariant forall k string :: !has(rows, k)
 //@   loop 2 range nodes
-//@     invariant rows != nil && incoming != nil
+//@     invariant rows != nil && incoming != nil && nodesKept(nodes) && levelsKept(levels)
+//@     invariant forall k string :: !has(rows, k)
 //@   loop 3 for
-//@     invariant rows != nil && incoming != nil
-//@     invariant forall a int :: off(nodes) <= a && a < off(nodes) + len(nodes) ==> at(nodes, a) != nil
+//@     invariant rows != nil && incoming != nil && nodesKept(nodes) && levelsKept(levels)
+//@     invariant [only-levels-done-so-far-have-rows] forall k string :: has(rows, k) ==> levels[k] < level
+//@     invariant [levels-done-so-far-have-no-row-collision] rowsApart(levels, rows)
 //@   loop 4 range nodes
-//@     invariant rows != nil && incoming != nil && fresh(base(levelNodes))
-//@     invariant forall a int :: off(nodes) <= a && a < off(nodes) + len(nodes) ==> at(nodes, a) != nil
+//@     invariant rows != nil && incoming != nil && fresh(base(levelNodes)) && nodesKept(nodes) && levelsKept(levels)
 //@     invariant forall b int :: off(levelNodes) <= b && b < off(levelNodes) + len(levelNodes) ==> at(levelNodes, b) != nil
+//@     invariant [the-level-list-holds-only-nodes-of-the-level] forall b int :: off(levelNodes) <= b && b < off(levelNodes) + len(levelNodes) ==> levels[at(levelNodes, b).id] == level
+//@     invariant rows == athead(3, rows) && preservedSince(3, "mapof(map[string]int)")
 //@   loop 5 range levelNodes
-//@     invariant rows != nil && incoming != nil && occupied != nil
+//@     invariant rows != nil && incoming != nil && occupied != nil && nodesKept(nodes) && levelsKept(levels)
 //@     invariant forall b int :: off(levelNodes) <= b && b < off(levelNodes) + len(levelNodes) ==> at(levelNodes, b) != nil
+//@     invariant forall b int :: off(levelNodes) <= b && b < off(levelNodes) + len(levelNodes) ==> levels[at(levelNodes, b).id] == level
 //@     invariant [assigned-rows-are-marked-occupied] forall b int :: off(levelNodes) <= b && b < off(levelNodes) + rk5 ==>
 //@                 has(rows, at(levelNodes, b).id) && has(occupied, rows[at(levelNodes, b).id]) && rows[at(levelNodes, b).id] >= 0
-//@     invariant [different-nodes-of-a-level-get-different-rows] forall b int, c int :: off(levelNodes) <= b && b < c && c < off(levelNodes) + rk5 &&
-//@                 at(levelNodes, b).id != at(levelNodes, c).id ==> rows[at(levelNodes, b).id] != rows[at(levelNodes, c).id]
-//@     exit ensures [no-row-collision-within-a-level] forall b int, c int :: off(levelNodes) <= b && b < c && c < off(levelNodes) + len(levelNodes) &&
-//@                 at(levelNodes, b).id != at(levelNodes, c).id ==> rows[at(levelNodes, b).id] != rows[at(levelNodes, c).id]
+//@     invariant [a-level-writes-rows-of-that-level-only] forall k string :: levels[k] != level ==> rows[k] == atentry(5, rows[k]) && has(rows, k) == atentry(5, has(rows, k))
+//@     invariant [only-levels-up-to-this-one-have-rows] forall k string :: has(rows, k) ==> levels[k] <= level
+//@     invariant [rows-of-this-level-are-marked-occupied] forall k string :: has(rows, k) && levels[k] == level ==> has(occupied, rows[k])
+//@     invariant [no-row-collision-so-far] rowsApart(levels, rows)
 //@   loop 6 for
-//@     invariant r >= 0 && rows != nil && incoming != nil && occupied != nil
+//@     invariant r >= 0 && rows != nil && incoming != nil && occupied != nil && levelsKept(levels)
 //@     exit ensures [the-chosen-row-is-free] !has(occupied, r) && r >= 0
 
 // The layout works on one record per flow node with a non-empty id (first occurrence wins), in document order, with
